@@ -124,7 +124,7 @@ Lemma process_nest name k sb d :
   (bytes_eqb (s_type sb) jsonObjectType = false -> s_props sb = []) ->
   processSchema name (Nat.iter k lift sb) =
   do comps <- buildABIParameterArrayForObject PF (s_props sb);
-  Ok (FParam name (d_type d) (d_internal d) (d_indexed d) comps).
+  finish (Nat.iter k lift sb) (FParam name (d_type d) (d_internal d) (d_indexed d) comps).
 Proof.
   intros Hd Ha Ho. destruct k as [|k].
   - destruct sb as [t o dd pr it]. cbn [s_details s_type s_props Nat.iter nat_rect] in *. subst dd. rewrite processSchema_unfold.
@@ -211,8 +211,15 @@ Definition with_index (ix : option Z) (s : schema) : schema :=
   | _ => s
   end.
 
+Lemma inputTypeValid_with_index ix s tc :
+  inputTypeValidForTypeComponent (with_index ix s) tc = inputTypeValidForTypeComponent s tc.
+Proof. destruct s as [t o [d|] p it]; reflexivity. Qed.
+
 Lemma process_with_index nm ix s : processSchema nm (with_index ix s) = processSchema nm s.
-Proof. destruct s as [t o [d|] p it]; [|reflexivity]. cbn [with_index]. rewrite !processSchema_unfold. reflexivity. Qed.
+Proof.
+  destruct s as [t o [d|] p it]; [|reflexivity]. cbn [with_index]. rewrite !processSchema_unfold.
+  cbn [d_type d_internal d_indexed]. destruct (components_of t p it); cbn [bind]; reflexivity.
+Qed.
 
 Lemma set_index_with i s d : s_details s = Some d -> set_index i s = Ok (with_index (Some (Z.of_nat i)) s).
 Proof. destruct s as [t o dd p it]. cbn [s_details]. intros ->. reflexivity. Qed.
@@ -243,6 +250,24 @@ Proof.
            | Ok _ = Ok _ => injection H as <-
            | _ => discriminate
            end; eauto.
+Qed.
+
+(* ---------- the JSON type written by ABI -> FFI passes the check of FFI -> ABI ---------- *)
+Lemma input_type_valid_generated p tc s :
+  getSchemaForABIInput p tc = Ok s -> inputTypeValidForTypeComponent s tc = Ok tt.
+Proof.
+  destruct tc as [et sfx m n|c k|c|children]; intros H.
+  - cbn [getSchemaForABIInput] in H. unfold inputTypeValidForTypeComponent, elementary_enc_is, is_elementary.
+    destruct (et_json et) eqn:E; cbn in H; injection H as <-; reflexivity.
+  - change (CFixedArr c k) with (wrap1_tc c (Some k)) in H. rewrite getSchema_wrap1 in H.
+    destruct (getSchemaForABIInput p c) as [[t o d pr it]| |]; cbn in H; try discriminate.
+    injection H as <-. reflexivity.
+  - change (CDynArr c) with (wrap1_tc c None) in H. rewrite getSchema_wrap1 in H.
+    destruct (getSchemaForABIInput p c) as [[t o d pr it]| |]; cbn in H; try discriminate.
+    injection H as <-. reflexivity.
+  - rewrite getSchema_tuple in H.
+    destruct (tuple_props children (fp_comps p) 0 []); cbn in H; try discriminate.
+    injection H as <-. reflexivity.
 Qed.
 
 Definition rename (nm : bytes) (p : fparam) : fparam :=
@@ -296,10 +321,12 @@ Proof.
   set (sa := splitElementaryTypeSuffix T (length (take_lower T))) in *.
   destruct (parse_base (take_lower T) (fst sa) (map erase cs)) as [base| |] eqn:EB; cbn [bind] in HP; try discriminate.
   (* tc = base wrapped in the array dimensions *)
-  assert (exists ds, tc = wrap_tc base ds) as [ds ->].
+  pose proof HP as HP0.
+  assert (exists ds, tc = wrap_tc base ds) as [ds Etc].
   { destruct (negb (is_nil (snd sa))).
     - apply parseArrays_sound in HP. destruct HP as (ds & _ & _ & _ & ->). eauto.
     - injection HP as <-. exists []. reflexivity. }
+  subst tc.
   set (p := FParam n T i x cs).
   (* the base schema *)
   assert (exists sb, getSchemaForABIInput p base = Ok sb /\ s_details sb = Some (det_of p) /\
@@ -331,25 +358,16 @@ Proof.
   exists (Nat.iter (length ds) lift sb). split; [|split].
   - apply getSchema_wrap. exact Gb.
   - rewrite iter_lift_details. exact Db.
-  - intros nm. rewrite (process_nest nm (length ds) sb (det_of p) Db Ab Ob). rewrite Bb. reflexivity.
-Qed.
-
-(* ---------- the JSON type written by ABI -> FFI passes the check of FFI -> ABI ---------- *)
-Lemma input_type_valid_generated p tc s :
-  getSchemaForABIInput p tc = Ok s -> inputTypeValidForTypeComponent s tc = Ok tt.
-Proof.
-  destruct tc as [et sfx m n|c k|c|children]; intros H.
-  - cbn [getSchemaForABIInput] in H. unfold inputTypeValidForTypeComponent, elementary_enc_is, is_elementary.
-    destruct (et_json et) eqn:E; cbn in H; injection H as <-; reflexivity.
-  - change (CFixedArr c k) with (wrap1_tc c (Some k)) in H. rewrite getSchema_wrap1 in H.
-    destruct (getSchemaForABIInput p c) as [[t o d pr it]| |]; cbn in H; try discriminate.
-    injection H as <-. reflexivity.
-  - change (CDynArr c) with (wrap1_tc c None) in H. rewrite getSchema_wrap1 in H.
-    destruct (getSchemaForABIInput p c) as [[t o d pr it]| |]; cbn in H; try discriminate.
-    injection H as <-. reflexivity.
-  - rewrite getSchema_tuple in H.
-    destruct (tuple_props children (fp_comps p) 0 []); cbn in H; try discriminate.
-    injection H as <-. reflexivity.
+  - intros nm. rewrite (process_nest nm (length ds) sb (det_of p) Db Ab Ob). rewrite Bb. cbn [bind].
+    cbn [det_of d_type d_internal d_indexed p fp_type fp_internal fp_indexed].
+    unfold finish.
+    assert (EP : parseABIParameterComponents (erase (FParam nm T i x (if is_tuple_type T then map norm cs else []))) =
+                 Ok (wrap_tc base ds)).
+    { change (erase (FParam nm T i x (if is_tuple_type T then map norm cs else [])))
+        with (erase (norm (FParam n T i x cs))).
+      rewrite parse_norm. cbn [erase]. rewrite parse_unfold. cbv zeta. fold sa. rewrite EB. cbn [bind]. exact HP0. }
+    rewrite EP. cbn [bind].
+    rewrite (input_type_valid_generated p (wrap_tc base ds) _ (getSchema_wrap p ds base sb Gb)). reflexivity.
 Qed.
 
 (* ---------- one parameter, there and back ---------- *)
